@@ -359,7 +359,7 @@ func Sparse6Encode(g Graph) string {
 
 	//Padding
 
-	if (n == 2 || n == 4 || n == 8 || n == 16) && 6-currentBitPosition > k+1 {
+	if (n == 2 || n == 4 || n == 8 || n == 16) && 6-currentBitPosition >= k+1 {
 		degrees := g.Degrees()
 		if degrees[n-2] > 0 && degrees[n-1] == 0 {
 			currentBitPosition++
